@@ -439,6 +439,169 @@ theorem reparse_stable {bs : Bytes} {ts : List Tag} (h : parseTags bs = .ok ts) 
   taglist_roundtrip ts (parse_wf h)
 
 
+/-! ## self-delimiting: a stream cut inside a tag is refused -/
+
+theorem getU8_append {bs r : Bytes} {n : Nat} (q : Bytes) (h : getU8 bs = .ok (n, r)) :
+    getU8 (bs ++ q) = .ok (n, r ++ q) := by
+  cases bs with
+  | nil => simp [getU8] at h
+  | cons b bs =>
+    simp only [getU8, Except.ok.injEq, Prod.mk.injEq] at h
+    obtain ⟨rfl, rfl⟩ := h
+    simp [getU8]
+
+theorem getU16_append {bs r : Bytes} {n : Nat} (q : Bytes) (h : getU16 bs = .ok (n, r)) :
+    getU16 (bs ++ q) = .ok (n, r ++ q) := by
+  match bs, h with
+  | a :: b :: rest, h =>
+    simp only [getU16, Except.ok.injEq, Prod.mk.injEq] at h
+    obtain ⟨rfl, rfl⟩ := h
+    simp [getU16]
+
+theorem getU32_append {bs r : Bytes} {n : Nat} (q : Bytes) (h : getU32 bs = .ok (n, r)) :
+    getU32 (bs ++ q) = .ok (n, r ++ q) := by
+  match bs, h with
+  | a :: b :: c :: d :: rest, h =>
+    simp only [getU32, Except.ok.injEq, Prod.mk.injEq] at h
+    obtain ⟨rfl, rfl⟩ := h
+    simp [getU32]
+
+theorem getData_append_mono {bs d r : Bytes} {n : Nat} (q : Bytes) (h : getData n bs = .ok (d, r)) :
+    getData n (bs ++ q) = .ok (d, r ++ q) := by
+  obtain ⟨h1, h2⟩ := getData_suffix h
+  subst h1; subst h2
+  rw [List.append_assoc]
+  exact getData_append d (r ++ q)
+
+theorem parseNum_append {first : Nat} {r r' : Bytes} {n : Nat} (q : Bytes)
+    (h : parseNum first r = .ok (n, r')) : parseNum first (r ++ q) = .ok (n, r' ++ q) := by
+  unfold parseNum at h ⊢
+  split at h
+  · rename_i hf; simp only [hf, if_true]; exact getU8_append q h
+  · rename_i hf
+    simp only [Except.ok.injEq, Prod.mk.injEq] at h
+    obtain ⟨rfl, rfl⟩ := h
+    simp [hf]
+
+theorem parseLen_append {c0 c : TagClass} {l lvt : Nat} {r r' : Bytes} (q : Bytes)
+    (h : parseLen c0 l r = .ok (c, lvt, r')) : parseLen c0 l (r ++ q) = .ok (c, lvt, r' ++ q) := by
+  unfold parseLen at h ⊢
+  split at h
+  · rename_i hl
+    simp only [hl, if_true]
+    split at h
+    · simp at h
+    · rename_i x r1 hx
+      rw [getU8_append q hx]
+      simp only
+      split at h
+      · rename_i hx254
+        simp only [hx254, if_true]
+        split at h
+        · simp at h
+        · rename_i y r2 hy
+          rw [getU16_append q hy]
+          simp only [Except.ok.injEq, Prod.mk.injEq] at h ⊢
+          obtain ⟨rfl, rfl, rfl⟩ := h
+          exact ⟨rfl, rfl, rfl⟩
+      · rename_i hx254
+        simp only [hx254, if_false]
+        split at h
+        · rename_i hx255
+          simp only [hx255, if_true]
+          split at h
+          · simp at h
+          · rename_i y r2 hy
+            rw [getU32_append q hy]
+            simp only [Except.ok.injEq, Prod.mk.injEq] at h ⊢
+            obtain ⟨rfl, rfl, rfl⟩ := h
+            exact ⟨rfl, rfl, rfl⟩
+        · rename_i hx255
+          simp only [hx255, if_false]
+          simp only [Except.ok.injEq, Prod.mk.injEq] at h ⊢
+          obtain ⟨rfl, rfl, rfl⟩ := h
+          exact ⟨rfl, rfl, rfl⟩
+  · rename_i hl
+    simp only [hl, if_false]
+    split at h
+    · rename_i h6
+      simp only [h6, if_true, Except.ok.injEq, Prod.mk.injEq] at h ⊢
+      obtain ⟨rfl, rfl, rfl⟩ := h
+      exact ⟨rfl, rfl, rfl⟩
+    · rename_i h6
+      simp only [h6, if_false]
+      split at h
+      · rename_i h7
+        simp only [h7, if_true, Except.ok.injEq, Prod.mk.injEq] at h ⊢
+        obtain ⟨rfl, rfl, rfl⟩ := h
+        exact ⟨rfl, rfl, rfl⟩
+      · rename_i h7
+        simp only [h7, if_false, Except.ok.injEq, Prod.mk.injEq] at h ⊢
+        obtain ⟨rfl, rfl, rfl⟩ := h
+        exact ⟨rfl, rfl, rfl⟩
+
+theorem parseData_append {c : TagClass} {num lvt : Nat} {r r' : Bytes} {t : Tag} (q : Bytes)
+    (h : parseData c num lvt r = .ok (t, r')) : parseData c num lvt (r ++ q) = .ok (t, r' ++ q) := by
+  unfold parseData at h ⊢
+  split at h
+  · rename_i hc
+    simp only [Except.ok.injEq, Prod.mk.injEq] at h
+    obtain ⟨rfl, rfl⟩ := h
+    simp [hc]
+  · rename_i hc
+    split at h
+    · simp at h
+    · rename_i d r1 hd
+      simp only [Except.ok.injEq, Prod.mk.injEq] at h
+      obtain ⟨rfl, rfl⟩ := h
+      simp [hc, getData_append_mono q hd]
+
+/-- decoding is insensitive to what follows: more octets after a tag that
+    decodes never change that tag -/
+theorem parseTag_append {bs rest : Bytes} {t : Tag} (q : Bytes) (h : parseTag bs = .ok (t, rest)) :
+    parseTag (bs ++ q) = .ok (t, rest ++ q) := by
+  unfold parseTag asInvalidTag at h ⊢
+  split at h
+  · rename_i x hx
+    simp only [Except.ok.injEq] at h
+    subst h
+    have : parseTagRaw (bs ++ q) = .ok (t, rest ++ q) := by
+      unfold parseTagRaw at hx ⊢
+      cases bs with
+      | nil => simp at hx
+      | cons b r1 =>
+        simp only [List.cons_append] at hx ⊢
+        split at hx
+        · simp at hx
+        · rename_i num r2 hnum
+          rw [parseNum_append q hnum]
+          simp only
+          split at hx
+          · simp at hx
+          · rename_i cls lvt r3 hlen
+            rw [parseLen_append q hlen]
+            simp only
+            exact parseData_append q hx
+    rw [this]
+  · simp at h
+
+/-- **prefix_refused** (self-delimiting): no strict non-empty prefix of the
+    encoding of a well-formed tag decodes — a partly present header, length
+    field or data is always `InvalidTag`, never misread as a shorter tag. -/
+theorem prefix_refused (t : Tag) (h : WF t) (p q : Bytes) (hpq : serializeTag t = p ++ q)
+    (hq : q ≠ []) : parseTag p = .error .invalidTag := by
+  cases hp : parseTag p with
+  | error e => rw [parseTag_err hp]
+  | ok v =>
+    obtain ⟨t', rest'⟩ := v
+    have h1 := parseTag_append q hp
+    have h2 := tag_roundtrip t h []
+    rw [List.append_nil, hpq, h1] at h2
+    simp only [Except.ok.injEq, Prod.mk.injEq] at h2
+    obtain ⟨_, h3⟩ := h2
+    have := List.append_eq_nil_iff.mp h3
+    exact absurd this.2 hq
+
 /-! ## balanced groups -/
 
 /-- tag lists in which every opening tag has its closing tag (the code does not
